@@ -6,6 +6,8 @@ import Gts.Model.Sexp
 import Gts.Spec.Den
 import Gts.Spec.Guard
 import Gts.Spec.LocCanon
+import Gts.Spec.Marks
+import Gts.Spec.MarkGuard
 namespace Gts
 
 def hasEmptyParts : Loc → Bool
@@ -84,6 +86,16 @@ def evalCore (op : String) (args : List Sexp) : Option String :=
   | "seq.concat", ss => do pure (encSeq (Seq.concat (← ss.mapM decSeq?)))
   | "spec.den", [l] => do pure (encDen (← decLoc? l).den)
   | "spec.regden", [r] => do pure (encDen (← decReg? r).den)
+  | "spec.marks", [l] => do
+      let m := (← decLoc? l).outerMarks
+      pure (boolStr m.1 ++ " " ++ boolStr m.2)
+  | "spec.cw", [l, n] => do pure (boolStr ((← decLoc? l).coordsWithin (← decInt? n)))
+  | "mk.shift", [l, i, n] => do
+      pure (boolStr ((← decLoc? l).shiftMarkAbs (← decInt? i) (← decInt? n)))
+  | "mk.expand", [l, i, n] => do
+      pure (boolStr ((← decLoc? l).expandMarkAbs (← decInt? i) (← decInt? n)))
+  | "mk.reverse", [l, n] => do pure (boolStr ((← decLoc? l).reverseMarkAbs (← decInt? n)))
+  | "mk.normalize", [l, n] => do pure (boolStr ((← decLoc? l).normalizeMarkAbs (← decInt? n)))
   | "k2.shift", [l, i, n] => do
       pure (boolStr ((← decLoc? l).shiftAbs (← decInt? i) (← decInt? n)))
   | "k2.expand", [l, i, n] => do
